@@ -96,14 +96,14 @@ def main():
             ('store', 'C17'): ['probe:evict', 'probe:evicted-frame-previously-addressed', 'probe:served-after-heal', 'probe:access-while-stale',
                                'probe:generator-advanced-between-other-ops', 'probe:export-and-reopen', 'fault:fired-oserror', 'fault:fired-vanish',
                                'fault:fs-replace_older', 'fault:fs-truncate', 'fault:fs-delete', 'fault:stale-read-raised', 'export-config:default', 'export-config:default_noindex',
-                               'export-config:bare'],
+                               'export-config:bare', 'probe:store-read-or-written-by-several-workers'],
             ('pool', 'C18'): ['probe:out-of-order-completion', 'probe:several-tasks-in-flight', 'pool:completed-at-submit-time', 'pool:chunked-map',
                               'fault:worker-crash-surfaced', 'fault:task-failure-surfaced', 'fault:unpicklable-surfaced'],
             ('pool', 'C18T'): ['probe:pre-empted-inside-task', 'pool:lock-contention', 'pool:thread-switches', 'fault:thread-stalled-inside-state-writing-function',
                               'pool:traced-lines-in-state-writing-functions'],
             ('quilt', 'C19'): ['probe:operation-on-quilt-with-unresolved-axis-map', 'probe:quilt-drove-bus-at-its-max_persist-limit',
                                'probe:direct-bus-access-between-quilt-operations', 'probe:served-from-memory-while-stale', 'fault:stale-read-raised',
-                               'probe:date-labels-selected-by-string'],
+                               'probe:date-labels-selected-by-string', 'probe:window-options-checked-against-the-concatenated-frame'],
             ('pool', 'C19B'): ['batch:direct-equal', 'batch:export-checked', 'probe:out-of-order-completion'],
             ('alias', 'C01'): ['fault:adversary-write', 'fault:failing-call', 'fault:write-to-handed-array-refused', 'fault:mutation-attempt-refused'],
         }
